@@ -1096,6 +1096,11 @@ class ContentElement(TTMLElement):
       (model_element.parent() is not None and model_element.parent().get_space() != model_element.get_space()):
       imsc_attr.XMLSpaceAttribute.set(xml_element, model_element.get_space())
 
+    if not isinstance(model_element, model.Br):
+      parent_lang = model_element.parent().get_lang() if model_element.parent() is not None else model_element.get_doc().get_lang()
+      if model_element.get_lang() != parent_lang:
+        imsc_attr.XMLLangAttribute.set(xml_element, model_element.get_lang())
+
     if imsc_class.has_region:
       if model_element.get_region() is not None:
         imsc_attr.RegionAttribute.set(xml_element, model_element.get_region().get_id())
